@@ -56,18 +56,19 @@ TIME_LIMIT = {"quick": 55, "thorough": 300}
 SANITIZER_PLAN = {
     # property -> tier -> list of stages
     "quick": {
-        "C01": ["explore", "bigindex"], "C02": ["explore"], "C03": ["explore"], "C04": ["explore"], "C05": ["explore"], "C06": ["explore"],
-        "C07": ["explore"], "C08": ["explore"], "C10": ["explore"], "C11": ["explore"],
+        "C01": ["explore", "bigindex", "probe"], "C02": ["explore", "probe"], "C03": ["explore", "probe"], "C04": ["explore", "probe"],
+        "C05": ["explore"], "C06": ["explore", "probe"],
+        "C07": ["explore", "probe"], "C08": ["explore"], "C10": ["explore"], "C11": ["explore"],
         "C13": ["explore", "miri"], "C14": ["explore", "miri"],
     },
     "thorough": {
-        "C01": ["explore", "bigindex", "release", "miri", "asan"],
-        "C02": ["explore", "bigindex", "release", "miri"],
-        "C03": ["explore", "bigindex", "release", "asan"],
-        "C04": ["explore", "bigindex", "release"],
+        "C01": ["explore", "bigindex", "probe", "release", "miri", "asan", "tsan"],
+        "C02": ["explore", "bigindex", "probe", "release", "miri"],
+        "C03": ["explore", "bigindex", "probe", "release", "asan", "tsan"],
+        "C04": ["explore", "bigindex", "probe", "release"],
         "C05": ["explore", "release", "tsan", "miri"],
-        "C06": ["explore", "release", "miri", "asan"],
-        "C07": ["explore", "release", "asan"],
+        "C06": ["explore", "probe", "release", "miri", "asan"],
+        "C07": ["explore", "probe", "release", "asan", "tsan"],
         "C13": ["explore", "release", "miri", "asan"],
         "C14": ["explore", "release", "miri", "asan"],
         "C08": ["explore"],
@@ -289,6 +290,13 @@ def replay(path, harness, repo):
         argv = [os.path.join(harness, "target", "release", "vbig"), rec["property"], str(rec.get("seed", 0)), "", "3"]
         log("replaying: " + " ".join(argv))
         return subprocess.run(argv, env=ENV_BASE).returncode
+    if rec.get("key") == "probe":
+        with BuildLock(harness):
+            prepare_lock(harness, repo)
+            rc, out = cargo(harness, ["build", "--offline", "-p", "vbig", "--release"], env={"CARGO_TARGET_DIR": os.path.join(harness, "target")})
+        argv = [os.path.join(harness, "target", "release", "vbig"), "probe", rec["property"], str(rec.get("seed", 0)), "", "8" if rec.get("tier") == "quick" else "60"]
+        log("replaying: " + " ".join(argv))
+        return subprocess.run(argv, env=ENV_BASE).returncode
     if stage != "plain":
         log("note: this violation was found under the %s build; replaying on the plain build (%s)" % (stage, rec.get("note", "")))
     ok, msg = build_plain(harness, repo)
@@ -378,6 +386,8 @@ def run_sanitizer_stage(st, prop, tier, seed, root, harness, repo, nproc, work):
         return run_shards_cwd(cmds, envs, outs, tl + 240, harness)
     if st == "bigindex":
         return run_bigindex(prop, tier, seed, harness, repo, work)
+    if st == "probe":
+        return run_bigindex(prop, tier, seed, harness, repo, work, probe=True)
     if st == "explore":
         ok, msg = build_plain(harness, repo)
         if not ok:
@@ -438,7 +448,7 @@ def run_sanitizer_stage(st, prop, tier, seed, root, harness, repo, nproc, work):
     return None
 
 
-def run_bigindex(prop, tier, seed, harness, repo, work):
+def run_bigindex(prop, tier, seed, harness, repo, work, probe=False):
     """source positions beyond 2^32: plain usize pipelines over 0..2^32+k in a small release-mode program"""
     with BuildLock(harness):
         prepare_lock(harness, repo)
@@ -446,19 +456,24 @@ def run_bigindex(prop, tier, seed, harness, repo, work):
         if rc != 0:
             log("vbig build failed:\n" + out[-2000:])
             return None
-    outp = os.path.join(work, "bigindex.json")
-    ncfg = "1" if tier == "quick" else "3"
-    argv = [os.path.join(harness, "target", "release", "vbig"), prop, str(seed), outp, ncfg]
-    res = run_shards([argv], [{}], [outp], 600, "bigindex")
+    name = "probe" if probe else "bigindex"
+    outp = os.path.join(work, name + ".json")
+    if probe:
+        argv = [os.path.join(harness, "target", "release", "vbig"), "probe", prop, str(seed), outp, "8" if tier == "quick" else "60"]
+    else:
+        argv = [os.path.join(harness, "target", "release", "vbig"), prop, str(seed), outp, "1" if tier == "quick" else "3"]
+    res = run_shards([argv], [{}], [outp], 900, name)
     r = res[0]
     raw = r["report"]
     if raw is not None:
         cases = raw.get("cases", [])
-        rep = dict(evaluations=len(cases), nontrivial=len(cases), multi_worker=len(cases), events=0, closure_calls=0, inconclusive=0,
-                   by_mode={"S": 0, "F": len(cases), "Q": 0}, extra={"pipelines_over_more_than_2^32_positions": len(cases)},
+        nev = raw.get("cases_count", len(cases))
+        xk = "plain_type_probe_runs(std maps/sets/heaps/lists/arrays/copied/cloned x chains x terminals)" if probe else "pipelines_over_more_than_2^32_positions"
+        rep = dict(evaluations=nev, nontrivial=nev, multi_worker=0, events=0, closure_calls=0, inconclusive=0,
+                   by_mode={"S": 0, "F": nev, "Q": 0}, extra={xk: nev},
                    distinct=[hashlib.sha1(c.encode()).hexdigest()[:16] for c in cases], signatures=[], other_props={},
                    samples=[{"case": c, "n": raw.get("n")} for c in cases[:1]], planned=len(cases), timed_out=False,
-                   violations=[dict(prop=prop, key="bigindex", msg=m, idx=0, seed=seed, tier=tier, small=False, case=m[:300], mode="F", picks="", script="")
+                   violations=[dict(prop=prop, key=name, msg=m, idx=0, seed=seed, tier=tier, small=False, case=m[:300], mode="F", picks="", script="")
                                for m in raw.get("violations", [])])
         r["report"] = rep
     return res
